@@ -386,3 +386,99 @@ def _rule_err_drop(u, rep, scope_files, crate="epserde", rule="ERR-DROP", exclud
     rep.count("mir_bodies_scanned_" + rule, nb)
     rep.count("result_locals_tracked_" + rule, nl)
     return nl
+
+
+def rule_reader_refusals(u, rep, mode, rule="ERR-WHO"):
+    """Per-type readers (the `_deserialize_{full,eps}_inner*` methods of every impl, built-in or derived, and the
+    helpers of deser/helpers.rs) may construct exactly one error themselves: InvalidTag, for a tag no variant
+    writes. Every other failure must come up from a stream primitive. A reader that builds another error refuses
+    stream forms the (total) writers produce."""
+    n = 0
+    want = "_deserialize_%s_inner" % mode
+    for b in u.bodies.values():
+        if b.thir is None or b.kind not in ("Fn", "AssocFn", "Closure"):
+            continue
+        nm = b.d.get("name") or ""
+        f = b.crate.files[b.sp[0]] if b.sp else ""
+        is_reader = nm.startswith(want) or (b.d.get("krate") == "epserde" and "deser/helpers.rs" in f and (mode in nm))
+        if not is_reader:
+            continue
+        acc = []
+        adts_built_in(b.crate, b.thir["root"], acc)
+        n += 1
+        for (aid, vname, e) in acc:
+            if aid == "epserde::deser::Error":
+                ok = vname == "InvalidTag"
+                rep.oblige(ok)
+                if not ok:
+                    rep.add(rule, "%s:%s" % (b.n, vname), "the %s reader `%s` builds Error::%s itself: apart from InvalidTag for a foreign tag, a reader may only pass on failures of the stream; this refuses streams that serialization produces" % (mode, b.n, vname), b.crate.span(e["sp"]))
+    rep.count("reader_functions_scanned_" + mode, n)
+    return n
+
+
+def rule_fail_fast(u, rep, scope_files, crate="epserde", rule="FAIL-FAST", errs=None, exclude_fn=None):
+    """MIR: between a call that returns Result<_, crate error> and the next such call on any normal path, the first
+    result must have been looked at (moved into `?`/match/return, borrowed, its discriminant read). Otherwise the
+    second operation is started although the first may have failed (`a().and(b())`, `let x = a(); let y = b(); x?; y?`):
+    the sink receives bytes after a rejected write."""
+    _ERR_FILTER[0] = errs
+    try:
+        n = 0
+        for b in u.bodies.values():
+            if b.mir is None or b.d.get("krate") != crate or not in_scope(b, scope_files):
+                continue
+            if exclude_fn and exclude_fn(b):
+                continue
+            m = b.mir
+            locs = m["locals"]
+            blocks = m["blocks"]
+            res_local = set(i for i, l in enumerate(locs) if is_err_result(b.crate.ty(l["ty"])))
+            if not res_local:
+                continue
+            for bi, blk in enumerate(blocks):
+                t = blk["term"]
+                if blk.get("cleanup") or t.get("k") != "Call":
+                    continue
+                d = t.get("dest", {})
+                if d.get("p") or d.get("l") not in res_local or "target" not in t:
+                    continue
+                L = d["l"]
+                n += 1
+                bad = None
+                seen = set()
+                work = [t["target"]]
+                while work and bad is None:
+                    cb = work.pop()
+                    if cb in seen or blocks[cb].get("cleanup"):
+                        continue
+                    seen.add(cb)
+                    stop = False
+                    for st in blocks[cb]["stmts"]:
+                        if st.get("k") == "Assign" and (_mentions_local(st.get("rv"), L) or (st["place"].get("l") == L)):
+                            stop = True
+                            break
+                    if stop:
+                        continue
+                    t2 = blocks[cb]["term"]
+                    k2 = t2.get("k")
+                    if k2 == "Call":
+                        if _mentions_local(t2.get("args"), L):
+                            continue
+                        d2 = t2.get("dest", {})
+                        if not d2.get("p") and d2.get("l") in res_local:
+                            bad = t2
+                            break
+                    elif k2 == "SwitchInt" and _mentions_local(t2.get("discr"), L):
+                        continue
+                    elif k2 == "Drop" and t2["place"].get("l") == L:
+                        continue
+                    elif k2 == "Return":
+                        continue
+                    work.extend(_succs(t2))
+                rep.oblige(bad is None)
+                if bad is not None:
+                    rep.add(rule, b.n, "in `%s` the fallible operation at %s is started before the result of the one at %s has been looked at: it runs even if the earlier one failed" % (b.n, b.crate.span(bad["sp"]), b.crate.span(t["sp"])), b.crate.span(bad["sp"]))
+        rep.count("fallible_calls_ordered_" + rule, n)
+        return n
+    finally:
+        _ERR_FILTER[0] = None
